@@ -1,4 +1,5 @@
 import MLPE.Proofs.EngTasks
+import MLPE.Proofs.PlainSol
 
 /-!
 # C05 — failures are reported faithfully
@@ -80,5 +81,47 @@ theorem C05_node_failure_is_the_raised_exception (c : Ctx) (s : St) (obs : List 
     (below : List Frame) (e : Exc) (hd : d.isOneof = false) :
     nodeFailCont c s obs d n below e = raiseOut c (nodeFinally c.P s d n true) obs below (.exc e) := by
   simp [nodeFailCont, hd]
+
+/-! ### Plain pipelines, all schedules -/
+
+/-- **C05 (plain), soundness of the verdict**: an error verdict is the policy's failure of a node of the pipeline (all of
+whose sources have values), wrapped in the result iff it is an `Exception`; never an engine artefact -/
+theorem C05_plain_error_is_a_required_node_failure (P : Program) (d : DagRef) (val : Node → Option Val) (hp : PlainP P d)
+    (hsol : Solution P d val) (s : St) (h : Live P s) (hpending : s.outcome = none) (c : Choice)
+    (hor : OracleOK P s c) (s' : St) (obs : List Obs) (hs : step P s c = some (s', obs)) (o : Outcome)
+    (ho : s'.outcome = some o) :
+    (∀ e, o = .error e → e.isException = true ∧ ∃ n ∈ d.nodes, NodeFails P val n e) ∧
+    (∀ e, o = .raised e → e.isException = false ∧ ∃ n ∈ d.nodes, NodeFails P val n e) := by
+  have hinv : PInv P d val s := pinv_live hp h hpending
+  rcases pinv_step hp hinv c (s', obs) hs hor (coreInv_reach h.reach) with ⟨o', ho', hok⟩ | h2
+  · simp only at ho'
+    rw [ho] at ho'; cases ho'
+    constructor
+    · intro e he; subst he; exact ⟨hok.1, hok.2 hsol⟩
+    · intro e he; subst he; exact ⟨hok.1, hok.2 hsol⟩
+  · have := h2.quiet.pend
+    simp only at this
+    rw [ho] at this; cases this
+
+/-- **C05 (plain), completeness of the verdict**: if some node of the pipeline fails (in the dataflow reading: its
+sources have values and the retry / default policy ends in a failure), then no execution returns a value — every node
+of the DAG feeds the output, so the failure cannot be masked -/
+theorem C05_plain_failure_is_never_masked (P : Program) (d : DagRef) (val : Node → Option Val) (hp : PlainP P d)
+    (hsol : Solution P d val) (ord : List Node) (ht : TopoOrd P d ord) (hfo : FeedsOutput P d)
+    (n : Node) (hn : n ∈ d.nodes) (e : Exc) (hfail : NodeFails P val n e)
+    (s : St) (h : Live P s) (hpending : s.outcome = none) (c : Choice)
+    (hor : OracleOK P s c) (s' : St) (obs : List Obs) (hs : step P s c = some (s', obs)) (v : Val) :
+    s'.outcome ≠ some (.value v) := by
+  intro ho
+  have hinv : PInv P d val s := pinv_live hp h hpending
+  rcases pinv_step hp hinv c (s', obs) hs hor (coreInv_reach h.reach) with ⟨o', ho', hok⟩ | h2
+  · simp only at ho'
+    rw [ho] at ho'; cases ho'
+    have a : val P.g.output = some v := hok hsol
+    have := val_none_propagates hsol ht hfo hp.outIn _ n hn (Nat.le_refl _) (hfail.val_none hsol hn)
+    rw [a] at this; cases this
+  · have := h2.quiet.pend
+    simp only at this
+    rw [ho] at this; cases this
 
 end MLPE.Eng
